@@ -568,28 +568,147 @@ theorem pdb_empty_frame_merged_violated :
       ⟨[⟨[['A'], ['B']], [], [pATOM ++ [' ', ' ', 'x']], [], true⟩], .done⟩ := by decide
 end witnesses
 
-/-! ## MOL2 (writer + reader) — `_partial`
+/-! ## MOL2 (writer + reader)
 
-   FULL STATEMENT (not proved in general): for every non-empty list `fs` of frames with single-line titles and a
-   counts printer `fc` whose first two words parse back,
-     `loadMany mol2Skel (mol2LoadOne true pa pb) (fs.flatMap (mol2DumpOne fc fa fb)) = ⟨fs.map mol2Norm, .done⟩`,
-   and a cut inside the last molecule gives `⟨(complete frames).map mol2Norm, .loadError _⟩`.
-   What is missing: `mol2.load_one` reads on past its own records up to the next `@<TRIPOS>MOLECULE` (the comment
-   header of the next frame is consumed by the previous `load_one`), so the blocks consumed by the reader are not
-   the blocks written; the induction needs the re-bracketing `head ++ (body ++ head)* ++ body` and a fuel bound for
-   `mol2Go`.  Proved here: the statement for the concrete sequences below by kernel evaluation of the same model
-   (separator-looking titles, with / without / empty bond sections), the truncation outcomes for every cut of a
-   two-frame file, and the loop-level facts; the `traj:mol2` / `trajc:mol2` streams compare the model with the real
-   reader on generated files of up to 50 frames at every cut point. -/
+   `mol2.load_one` does not stop at the end of its own records: its section loop reads on until the next
+   `@<TRIPOS>MOLECULE` record (pushed back) or the end of the file, so the seven comment lines that `dump_one` prints
+   in front of the NEXT frame are consumed by the PREVIOUS frame's `load_one`.  The blocks the reader consumes are
+   therefore not the blocks the writer wrote, and the generic block lemma does not apply.  The invariant used instead
+   (`Lemmas/Traj.lean`, `mol2_runLoop_frames`): the pending lines are
+     comment lines ++ MOLECULE record ++ rest of a written frame ++ complete written frames ++ comment lines ++ tail,
+   where the tail is empty or starts with a MOLECULE record; `load_one` from a MOLECULE record returns `mol2Norm f`
+   and leaves exactly the lines from the next MOLECULE record on (`mol2_prefix_law`).  A line is a comment line
+   (`inert`) when it is empty or its first word is none of the three record tags; both the scan of `load_many` and
+   the section loop of `load_one` pass over such lines. -/
 
 section mol2
+variable {α β : Type} (fc : Nat → Nat → Line) (pa : Line → Option α) (fa : α → Line)
+  (pb : Line → Option β) (fb : β → Line)
+
+/-- **prefix-consumption law of MOL2** in the form the format allows: from the MOLECULE record of a written frame,
+    followed by comment lines and then by nothing or by a further MOLECULE record, `load_one` returns the frame and
+    leaves exactly what starts at that further record.  Titles are taken by position: a title that reads
+    `@<TRIPOS>MOLECULE`, `@<TRIPOS>ATOM` or is blank is inside the domain; the domain excludes multi-line titles. -/
+theorem mol2_prefix_law (hc : Mol2CountsOk fc) (ha : ∀ a, pa (fa a) = some a) (hb : ∀ b, pb (fb b) = some b)
+    (f : Mol2Frame α β) (hnl : '\n' ∉ f.title) (sk : List Line) (hsk : ∀ l ∈ sk, inert l = true)
+    (tl : List Line) (htl : MolStart tl) (ln : Int) :
+    ∃ ln', mol2LoadOne true pa pb ⟨tMOLECULE :: (mol2Body fc fa fb f ++ (sk ++ tl)), ln⟩ =
+      .ok (mol2Norm f) ⟨tl, ln'⟩ :=
+  mol2_loadOne_frame pa pb fc fa fb hc ha hb f hnl sk hsk tl htl ln
+
+/-- a written frame is seven comment lines, the MOLECULE record line and the body -/
+theorem mol2_dump_shape (f : Mol2Frame α β) :
+    mol2DumpOne fc fa fb f = mol2Pre ++ tMOLECULE :: mol2Body fc fa fb f := mol2DumpOne_eq fc fa fb f
+
+/-- **round trip, any number of frames**: the file written by dump_many (optionally followed by comment or blank
+    lines) reads back as exactly the frames, in order, each as its single-frame file would load. -/
+theorem mol2_roundtrip (hc : Mol2CountsOk fc) (ha : ∀ a, pa (fa a) = some a) (hb : ∀ b, pb (fb b) = some b)
+    (fs : List (Mol2Frame α β)) (hne : fs ≠ []) (hnl : ∀ f ∈ fs, '\n' ∉ f.title)
+    (trail : List Line) (htr : ∀ l ∈ trail, inert l = true) :
+    loadMany mol2Skel (mol2LoadOne true pa pb) (fs.flatMap (mol2DumpOne fc fa fb) ++ trail) =
+      ⟨fs.map mol2Norm, .done⟩ := by
+  have hemp : fs.isEmpty = false := by cases fs with | nil => exact absurd rfl hne | cons _ _ => rfl
+  obtain ⟨r, hr, he⟩ := mol2_runLoop_file pa pb fc fa fb hc ha hb trail [] htr (Or.inl rfl)
+    (fun r => r = (([] : List (Mol2Frame α β)), GenFinal.ret)) fs true
+    (fun fuel ln hf => by
+      cases fuel with
+      | zero => simp at hf
+      | succ fuel => simp [runLoop, mol2Skel, runPeek, scanMolGo, hemp])
+    hnl ((fs.flatMap (mol2DumpOne fc fa fb) ++ trail).length + 1) (by simp) 0
+  subst hr
+  have := loadMany_of_runLoop mol2Skel (mol2LoadOne true pa pb) (fs.flatMap (mol2DumpOne fc fa fb) ++ trail) _ _
+    (by simpa using he)
+  simpa [apiFinal] using this
+
+/-- **malformed_reached**: complete frames (also none), comment lines, then a MOLECULE record on which `load_one`
+    raises (whatever the exception: unreadable counts, an unparsable atom or bond record, the end of the file inside
+    the records, an announced but absent BOND section): exactly the complete frames are yielded, then LoadError —
+    the bad frame is neither skipped nor does it end the sequence silently. -/
+theorem mol2_malformed_reached (hc : Mol2CountsOk fc) (ha : ∀ a, pa (fa a) = some a) (hb : ∀ b, pb (fb b) = some b)
+    (fs : List (Mol2Frame α β)) (hnl : ∀ f ∈ fs, '\n' ∉ f.title)
+    (sk : List Line) (hsk : ∀ l ∈ sk, inert l = true) (m : Line) (t : List Line)
+    (hm : (words m).head? = some tMOLECULE)
+    (hbad : ∀ ln, ∃ e s, mol2LoadOne true pa pb ⟨m :: t, ln⟩ = .raise e s) :
+    ∃ ln, loadMany mol2Skel (mol2LoadOne true pa pb) (fs.flatMap (mol2DumpOne fc fa fb) ++ (sk ++ m :: t)) =
+      ⟨fs.map mol2Norm, .loadError ln⟩ := by
+  obtain ⟨r, ⟨hr1, e, s, hr2⟩, he⟩ := mol2_runLoop_file pa pb fc fa fb hc ha hb sk (m :: t) hsk
+    (Or.inr ⟨m, t, rfl, hm⟩) EndsRaised fs true
+    (fun fuel ln hf => by
+      obtain ⟨e, s, hst⟩ := hbad ln
+      cases fuel with
+      | zero => simp at hf
+      | succ fuel =>
+        obtain ⟨e', he'⟩ := runLoop_raise .scanMolecule (mol2LoadOne true pa pb) fuel (true && fs.isEmpty)
+          ⟨m :: t, ln⟩ ⟨m :: t, ln⟩ s e (by simp [runPeek, scanMolGo, hm]) hst
+        exact endsRaised_of he')
+    hnl _ (Nat.le_refl _) 0
+  refine ⟨s.lineno, ?_⟩
+  have := loadMany_of_runLoop _ _ _ _ _ he
+  simpa [hr1, hr2, apiFinal] using this
+
+/-- a written frame cut after `m ≥ 8` lines is the comment lines, the MOLECULE record and a prefix of the body -/
+theorem mol2_dump_take (f : Mol2Frame α β) (m : Nat) (hm : 8 ≤ m) :
+    (mol2DumpOne fc fa fb f).take m = mol2Pre ++ tMOLECULE :: (mol2Body fc fa fb f).take (m - 8) := by
+  obtain ⟨k, rfl⟩ : ∃ k, m = k + 8 := ⟨m - 8, by omega⟩
+  rw [mol2DumpOne_eq]
+  simp [mol2Pre]
+
+/-- **truncated_last**: a file cut inside its last frame — after the frame's MOLECULE record line (`8 ≤ m`) and
+    before its last line — after any number of complete frames (also none): exactly the complete frames are
+    yielded, then LoadError; never a partial frame, never a silent end.  The one cut excluded by `hex` removes only
+    the header line of an EMPTY bond section: what is left is byte for byte a complete written file
+    (`mol2_cut_empty_bond_section`), to which `mol2_roundtrip` applies. -/
+theorem mol2_truncated_last (hc : Mol2CountsOk fc) (ha : ∀ a, pa (fa a) = some a) (hb : ∀ b, pb (fb b) = some b)
+    (fs : List (Mol2Frame α β)) (hnl : ∀ f ∈ fs, '\n' ∉ f.title) (f : Mol2Frame α β) (hf : '\n' ∉ f.title)
+    (m : Nat) (hm8 : 8 ≤ m) (hm : m < (mol2DumpOne fc fa fb f).length)
+    (hex : ¬ (f.bonds = some [] ∧ m + 1 = (mol2DumpOne fc fa fb f).length)) :
+    ∃ ln, loadMany mol2Skel (mol2LoadOne true pa pb)
+        (fs.flatMap (mol2DumpOne fc fa fb) ++ (mol2DumpOne fc fa fb f).take m) = ⟨fs.map mol2Norm, .loadError ln⟩ := by
+  rw [mol2_dump_take fc fa fb f m hm8]
+  have hlen : (mol2DumpOne fc fa fb f).length = (mol2Body fc fa fb f).length + 8 := by
+    rw [mol2DumpOne_eq]; simp [mol2Pre]
+  rw [hlen] at hm hex
+  exact mol2_malformed_reached fc pa fa pb fb hc ha hb fs hnl mol2Pre mol2Pre_inert tMOLECULE _
+    (by rw [words_tMOLECULE]; rfl)
+    (fun ln => mol2_cut_raises pa pb fc fa fb hc ha hb f hf (m - 8) (by omega)
+      (fun h => hex ⟨h.1, by omega⟩) ln)
+
+/-- a cut inside the seven comment lines in front of the last frame (`m ≤ 7`), after at least one complete frame:
+    nothing of the last frame's data is in the file, the sequence ends normally after the complete frames -/
+theorem mol2_cut_in_comment_lines (hc : Mol2CountsOk fc) (ha : ∀ a, pa (fa a) = some a)
+    (hb : ∀ b, pb (fb b) = some b) (fs : List (Mol2Frame α β)) (hne : fs ≠ []) (hnl : ∀ f ∈ fs, '\n' ∉ f.title)
+    (f : Mol2Frame α β) (m : Nat) (hm : m ≤ 7) :
+    loadMany mol2Skel (mol2LoadOne true pa pb)
+        (fs.flatMap (mol2DumpOne fc fa fb) ++ (mol2DumpOne fc fa fb f).take m) = ⟨fs.map mol2Norm, .done⟩ := by
+  apply mol2_roundtrip fc pa fa pb fb hc ha hb fs hne hnl
+  intro l hl
+  have hz : m - mol2Pre.length = 0 := by simp [mol2Pre]; omega
+  rw [mol2DumpOne_eq, List.take_append, hz, List.take_zero, List.append_nil] at hl
+  exact mol2Pre_inert l (List.mem_of_mem_take hl)
+
+/-- the cut excluded in `mol2_truncated_last`: without the header line of its empty bond section the frame is the
+    written form of the same frame without bond section — a complete file -/
+theorem mol2_cut_empty_bond_section (f : Mol2Frame α β) (h : f.bonds = some []) :
+    (mol2DumpOne fc fa fb f).take ((mol2DumpOne fc fa fb f).length - 1) =
+      mol2DumpOne fc fa fb { f with bonds := none } := by
+  have hlen : (mol2DumpOne fc fa fb f).length = (mol2Body fc fa fb f).length + 8 := by
+    rw [mol2DumpOne_eq]; simp [mol2Pre]
+  have hpos : 1 ≤ (mol2Body fc fa fb f).length := by
+    obtain ⟨t, a, b⟩ := f; simp [mol2Body]; omega
+  rw [mol2_dump_take fc fa fb f _ (by omega), hlen, mol2DumpOne_eq,
+    show (mol2Body fc fa fb f).length + 8 - 1 - 8 = (mol2Body fc fa fb f).length - 1 by omega,
+    mol2Body_cut_empty_bonds fc fa fb f h]
+
+/-! concrete sequences by kernel evaluation of the same model (non-vacuity: every hypothesis discharged):
+    separator-looking titles, with / without / empty bond sections, and every cut of a two-frame file -/
+
 def cnt2 (na nb : Nat) : Line := natDigits na ++ [' '] ++ natDigits nb
 
 def mA : Mol2Frame Line Line := ⟨tMOLECULE, [['x']], none⟩                      -- title looks like a record
 def mB : Mol2Frame Line Line := ⟨[], [['y'], ['z']], some [['b']]⟩              -- no title, one bond
 def mC : Mol2Frame Line Line := ⟨[' ', 'E', 'N', 'D', ' '], [['w']], some []⟩  -- padded title, empty bond section
 
-theorem mol2_roundtrip_examples_partial :
+theorem mol2_roundtrip_examples :
     loadMany mol2Skel (mol2LoadOne true anyLine anyLine) ([mA, mB, mC].flatMap (mol2DumpOne cnt2 id id)) =
       ⟨[mA, mB, mC].map mol2Norm, .done⟩ ∧
     loadMany mol2Skel (mol2LoadOne true anyLine anyLine) ([mB].flatMap (mol2DumpOne cnt2 id id)) =
@@ -599,7 +718,7 @@ theorem mol2_roundtrip_examples_partial :
 
 /-- every cut of the two-frame file `[mA, mB]`: the complete frames, then either a clean end (cut before the next
     MOLECULE record or after the last record) or LoadError — never a silent short or partial sequence -/
-theorem mol2_truncation_examples_partial :
+theorem mol2_truncation_examples :
     (List.range 28).all (fun k =>
       let o := loadMany mol2Skel (mol2LoadOne true anyLine anyLine)
         (([mA, mB].flatMap (mol2DumpOne cnt2 id id)).take k)
@@ -631,6 +750,10 @@ theorem mol2_no_molecule_rejected {α β : Type} (pa : Line → Option α) (pb :
       exact ⟨ln', by simp [scanMolGo, hl l (by simp), h']⟩
   obtain ⟨ln', hk⟩ := key ls 0 h
   exact ⟨ln', by simp [loadMany, Lit.ofLines, runLoop, mol2Skel, runPeek, hk, apiFinal]⟩
+
+/-- the library's counts line `f"{natom:5d} {nbonds:6d} {0:6d} {0:6d}"` at sample values satisfies `Mol2CountsOk` -/
+example : words ("    3      2      0      0".toList) = [['3'], ['2'], ['0'], ['0']] ∧
+    pyInt ['3'] = some 3 ∧ pyInt ['2'] = some 2 := by decide
 end mol2
 
 /-! ## FCHK: point / step bookkeeping -/
